@@ -122,6 +122,7 @@ func c05Run(c *Ctx) {
 		}
 	}
 	c.D.U64(sched.Digest)
+	c.Sched = sched.Digest
 	c.St.C["sched:events"] += sched.Events
 	c.St.C["sched:switches"] += sched.Switches
 	c.St.C["sched:tasks"] += int64(nt)
